@@ -474,7 +474,7 @@ class Executor:
         self.path.assume(z3.Not(res.is_none))
         res = res.inner
       if c.result is not None and not isinstance(res, VNone):
-        res = coerce(res, c.result)
+        res = coerce(self.world.materialize(self, res, c.result), c.result)
       ctx = self.ctx(result=res, mid=getattr(self, 'cm_mid', None))
       clauses = c.cm_exit if c.is_cm else c.ensures
       for cl in clauses:
@@ -994,6 +994,8 @@ class Executor:
       else:
         if not self.decide_truth(self.ev(s.test), s.test):
           raise PathEnd()    # covered by the exit alternative
+      if spec.body_start:
+        spec.body_start(self, self.loop_ctx(it), k)
       try:
         self.exec_block(s.body)
       except ContinueSig:
